@@ -39,6 +39,7 @@ func c13R1(c *Ctx, rule string) {
 	engine.EachInstr(fn, func(in ssa.Instruction) {
 		if ifi, ok := in.(*ssa.If); ok {
 			cd := c.P.CondOf(ifi.Cond)
+			cd, _ = cd.WithY(func(d string) bool { return d == "recv.quorumSize()" })
 			if cd.IsRel && cd.Y == "recv.quorumSize()" && cd.EdgeOrd(true) == engine.LT {
 				contacted, quorumIf = cd.XV, ifi
 			}
@@ -52,6 +53,7 @@ func c13R1(c *Ctx, rule string) {
 	engine.EachInstr(fn, func(in ssa.Instruction) {
 		if ifi, ok := in.(*ssa.If); ok {
 			cd := c.P.CondOf(ifi.Cond)
+			cd, _ = cd.WithY(func(d string) bool { return d == "recv.config().LeaderLeaseTimeout" })
 			if cd.IsRel && cd.Y == "recv.config().LeaderLeaseTimeout" && strings.HasPrefix(cd.X, "time.Now().Sub(") {
 				diffD = cd.X
 			}
